@@ -186,6 +186,9 @@ class SwitchRouter(BaseRouter):
         )
 
     def _get_case_or_none(self, comparison_type, arguments):
+        if comparison_type in RouterCase.NO_ARGS_TESTS:
+            # RouterCase stores no arguments for these tests
+            arguments = []
         for case in self.cases:
             if case.type == comparison_type and case.arguments == arguments:
                 return case
